@@ -90,6 +90,37 @@ func belowStartRule(p *Program, r *Reporter, fns []*ssa.Function) {
 					}
 					var x ssa.Value
 					negWhen := true // the comparison is true for negative differences
+					// direct form: nr < startNr (or its mirror / complement), no difference involved
+					if bo.Op == token.LSS || bo.Op == token.GTR || bo.Op == token.GEQ || bo.Op == token.LEQ {
+						depNr := func(v ssa.Value) bool {
+							if localDependsOnParam(p, v, nrPrm) {
+								return true
+							}
+							q := newDepQuery(p, onParam(nrPrm))
+							q.noParams = true
+							return q.depends(v, 0)
+						}
+						xn, xs := depNr(bo.X), valueDependsOnField(p, bo.X, "app.ResponseConfig.StartNr")
+						yn, ys := depNr(bo.Y), valueDependsOnField(p, bo.Y, "app.ResponseConfig.StartNr")
+						if xn && !xs && ys && !yn || yn && !ys && xs && !xn {
+							// nr on the left: below when LSS true / GEQ false; nr on the right: below when GTR true / LEQ false
+							var when, okOp bool
+							switch {
+							case xn && bo.Op == token.LSS, yn && bo.Op == token.GTR:
+								when, okOp = true, true
+							case xn && bo.Op == token.GEQ, yn && bo.Op == token.LEQ:
+								when, okOp = false, true
+							}
+							if okOp {
+								for _, fail := range branchTargets(bo, when, 0) {
+									if isErrorExit(fail) || factsOf(fail.Parent()).errOnly[fail] {
+										good++
+									}
+								}
+							}
+							continue
+						}
+					}
 					switch {
 					case bo.Op == token.LSS && isZeroConst(bo.Y):
 						x = bo.X
@@ -352,6 +383,21 @@ func inTable(v ssa.Value, tbl string, mu *ssa.MapUpdate, rb *ssa.BasicBlock, see
 	}
 	if v == mu.Value {
 		return mu.Block() == rb || mu.Block().Dominates(rb)
+	}
+	// a result spilled to a local (functions with defers): every value stored into it, judged where it is stored
+	if ld, ok := v.(*ssa.UnOp); ok && ld.Op == token.MUL {
+		if al, ok := ld.X.(*ssa.Alloc); ok && al.Referrers() != nil {
+			n := 0
+			for _, ref := range *al.Referrers() {
+				if st, ok := ref.(*ssa.Store); ok && st.Addr == ssa.Value(al) {
+					n++
+					if !inTable(st.Val, tbl, mu, st.Block(), seen) {
+						return false
+					}
+				}
+			}
+			return n > 0
+		}
 	}
 	return false
 }
@@ -1203,7 +1249,7 @@ func exactEarlyRule(p *Program, r *Reporter) {
 // call or the 'no DRM requested' edge of a test of the DRM setting (checked per function: the delivery
 // function itself and each closure it creates).
 func encryptBeforeWriteRule(p *Program, r *Reporter, wcs *ssa.Function) {
-	r.Rule("E5-ENCBEFOREWRITE", "every path to a chunk write passes the encryption call or the no-DRM edge", 1)
+	r.Rule("E5-ENCBEFOREWRITE", "the chunk-write sites agree: all of them lie behind the encryption call (or the no-DRM edge), or none does", 1)
 	n := 0
 	isEnc := func(b *ssa.BasicBlock) bool {
 		for _, in := range b.Instrs {
@@ -1277,6 +1323,12 @@ func encryptBeforeWriteRule(p *Program, r *Reporter, wcs *ssa.Function) {
 		fns = append(fns, fn)
 		fns = append(fns, fn.AnonFuncs...)
 	}
+	type wsite struct {
+		fn  *ssa.Function
+		c   *ssa.Call
+		bad bool
+	}
+	var sitesW []wsite
 	for _, fn := range fns {
 		for _, b := range fn.Blocks {
 			for _, in := range b.Instrs {
@@ -1285,11 +1337,21 @@ func encryptBeforeWriteRule(p *Program, r *Reporter, wcs *ssa.Function) {
 					continue
 				}
 				n++
-				bad := get(fn)[b] && !isEnc(b) && enteredUncovered(fn, 0)
-				r.Decide(!bad, "E5-ENCBEFOREWRITE", shortFn(fn), "call:writeChunk", p.pos(c.Pos()), "behind encryptFrags or the no-DRM edge on every path",
-					"a chunk can be written on a path that neither encrypts it nor is the no-DRM path: with DRM requested this chunk goes out in the clear inside an encrypted segment", nil)
+				sitesW = append(sitesW, wsite{fn, c, get(fn)[b] && !isEnc(b) && enteredUncovered(fn, 0)})
 			}
 		}
+	}
+	// sibling agreement: the write sites are all behind the encryption (it happens in this function), or none
+	// is (it happens elsewhere, e.g. inside the splitter); a mixture leaves some chunks in the clear
+	covered := 0
+	for _, w := range sitesW {
+		if !w.bad {
+			covered++
+		}
+	}
+	for _, w := range sitesW {
+		r.Decide(!w.bad || covered == 0, "E5-ENCBEFOREWRITE", shortFn(w.fn), "call:writeChunk", p.pos(w.c.Pos()), "agrees with the other chunk-write sites on passing the encryption call or the no-DRM edge",
+			"this chunk write is reached without the encryption call that the other write sites pass: with DRM requested this chunk goes out in the clear inside an encrypted segment", nil)
 	}
 	if n == 0 {
 		r.Broken("writeChunkedSegment: no chunk write found")
